@@ -37,7 +37,7 @@ def plan(tier, seed):
             cls = classes_for(i, seed, 1 if asan else 3)
         else:
             caps = ["--cap-3", 12, "--cap-light", 8, "--cap-mid", 7, "--cap-heavy", 5] if asan else ["--cap-3", 14, "--cap-light", 12, "--cap-mid", 10, "--cap-heavy", 9]
-            args = ["--cases", 300 if asan else 1200, "--solve-limit", 4, "--budget", 3000000, "--answer-ms", 300000]
+            args = ["--cases", 450 if asan else 2000, "--solve-limit", 4, "--budget", 3000000, "--answer-ms", 300000]
             cls = THREE + FOUR[(i * 9) % 36:(i * 9) % 36 + 9] if not asan else classes_for(i, seed, 4)
         shards.append(dict(bin=("opt", "c04"), args=args + caps + ["--engine", eng, "--nets", nets, "--classes", ",".join(cls), "--dtm-cache", DTM_CACHE]))
     return dict(
